@@ -651,9 +651,15 @@ func Reader(data any, selectors []any) (any, error) {
 							}
 						case NUMBER:
 							{
-								str, ok := data[selector.GetKey()].(string)
+								value := data[selector.GetKey()]
+								if value == nil {
+									// a missing key stays NULL
+									copy[selector.GetKey()] = nil
+									continue
+								}
+								str, ok := value.(string)
 								if !ok {
-									return nil, INVALID_TYPE.Extend(fmt.Sprintf("failed to execute pipe operation. %s is of %T type", selector.GetKey(), data[selector.GetKey()]))
+									return nil, INVALID_TYPE.Extend(fmt.Sprintf("failed to execute pipe operation. %s is of %T type", selector.GetKey(), value))
 								}
 								number, err := strconv.ParseFloat(str, 64)
 								if err != nil {
